@@ -530,7 +530,7 @@ fn scen_key(s: &Scenario) -> String {
 fn minimise(run: &Run, okey: &str, seed: u64, what: &str) -> Violation {
     let ok = okey.to_string();
     let fails = move |r: &Run| -> bool {
-        check_run(r, None).key.map(|(k, _)| k == ok).unwrap_or(false)
+        fresh_thread(|| check_run(r, None)).key.map(|(k, _)| k == ok).unwrap_or(false)
     };
     let (min, tried) = shrink_run(
         run.clone(),
@@ -542,7 +542,7 @@ fn minimise(run: &Run, okey: &str, seed: u64, what: &str) -> Violation {
             max_candidates: 400,
         },
     );
-    let fin = check_run(&min, None);
+    let fin = fresh_thread(|| check_run(&min, None));
     let detail = fin.key.map(|x| x.1).unwrap_or_else(|| "(not reproduced after shrink)".into());
     let mut rj = min.to_json();
     rj["kind"] = json!("c04_run");
@@ -837,7 +837,7 @@ pub fn run(tier: &str) -> i32 {
     let nruns: usize = if quick { 1500 } else { 40_000 };
     for (batch, faults_on) in [("plain", false), ("faults", true)] {
         let cases = par_map(nruns, workers(), move |i| {
-            gen_case(run_seed(vs, "C04", batch, i as u64), faults_on)
+            fresh_thread(|| gen_case(run_seed(vs, "C04", batch, i as u64), faults_on))
         });
         for c in cases {
             ev.evaluations += 1;
